@@ -19,6 +19,7 @@ import (
 	shop "github.com/flant/shell-operator/pkg/shell-operator"
 	"github.com/flant/shell-operator/pkg/task"
 	"github.com/flant/shell-operator/pkg/task/queue"
+	utilsfile "github.com/flant/shell-operator/pkg/utils/file"
 
 	"verif/internal/hk"
 	_ "verif/internal/kit"
@@ -63,6 +64,9 @@ type Env struct {
 	Scratch  string
 	HooksDir string
 	TmpDir   string
+	// TmpArg: when set, the temporary directory is given to the operator the way --tmp-dir is: this spelling of
+	// TmpDir (for instance relative to the working directory) goes through EnsureTempDirectory first
+	TmpArg string
 	Tree     *vh.Tree
 	FC       *fake.Cluster
 	Op       *shop.ShellOperator
@@ -128,7 +132,17 @@ func (e *Env) Assemble() error {
 	if os.Getenv("VERIF_LOG") != "" {
 		logger = log.NewLogger(log.Options{})
 	}
-	op, err := shop.VerifAssemble(e.ctx, e.FC.Client, e.HooksDir, e.TmpDir, logger)
+	tmp := e.TmpDir
+	if e.TmpArg != "" {
+		// the --tmp-dir argument as the operator's bootstrap treats it
+		d, err := utilsfile.EnsureTempDirectory(e.TmpArg)
+		if err != nil {
+			e.cancel()
+			return err
+		}
+		tmp = d
+	}
+	op, err := shop.VerifAssemble(e.ctx, e.FC.Client, e.HooksDir, tmp, logger)
 	if err != nil {
 		e.cancel()
 		return err
